@@ -23,7 +23,7 @@ type c14Template struct {
 	// undetermined: LogQL leaves the answer open (ties, float summation order), so
 	// the result is not compared with the twin's; errors and closes still are.
 	undetermined bool
-	build     func(a, b, rng string) string
+	build        func(a, b, rng string) string
 }
 
 var c14Templates = []c14Template{
@@ -64,7 +64,9 @@ var c14Templates = []c14Template{
 		return "first_over_time(" + a + " | unwrap weight [" + r + "]) by (container) - last_over_time(" + b + " | unwrap weight [" + r + "]) by (container)"
 	}},
 	{name: "avg_by", metric: true, undetermined: true, build: func(a, _, r string) string { return "avg by (container_image) (count_over_time(" + a + "[" + r + "]))" }},
-	{name: "count_by", metric: true, build: func(a, _, r string) string { return "count by (container_image) (bytes_over_time(" + a + "[" + r + "]))" }},
+	{name: "count_by", metric: true, build: func(a, _, r string) string {
+		return "count by (container_image) (bytes_over_time(" + a + "[" + r + "]))"
+	}},
 	{name: "stddev_by", metric: true, undetermined: true, build: func(a, _, r string) string {
 		return "stddev by (container_image) (count_over_time(" + a + "[" + r + "]))"
 	}},
